@@ -286,10 +286,12 @@ def check_case(case: dict, out: dict, notes: list[str]) -> list[tuple[str, Any, 
         rej = ref.update(op)
         exp = ref.expect_step(rej)
         got = dict(st)
-        # an empty range `Gap(t, t)` covers no slot (left behind for capacity 1 after a jump): ignore it,
-        # but the list must stay sorted and well-formed
+        # an empty range `Gap(t, t)` covers no slot; the only one the code leaves behind is `Gap(newest, newest)` for
+        # capacity 1 right after a jump — that one is ignored; the list must be sorted and well-formed
         well_formed = all(s <= e for s, e in got["gaps"]) and got["gaps"] == sorted(got["gaps"])
-        got["gaps"] = [g for g in got["gaps"] if g[0] != g[1]]
+        newest_t = ref.time(ref.newest) if ref.newest is not None else None
+        if case["cap"] == 1 and got["gaps"] == [[newest_t, newest_t]]:
+            got["gaps"] = []
         for key, clause in (("rej", "reject-old"), ("gaps", "gaps"), ("cv", "count_valid"), ("old", "oldest_timestamp"),
                             ("new", "newest_timestamp"), ("cc", "count_covered")):
             if got[key] != exp[key]:
